@@ -224,12 +224,15 @@ def dedup_jobs(jobs):
 
 # ----------------------------------------------------------------------------- PV events
 
-def pv_events(job, job_index, job_name, rnd=None, idprefix="", t0=0):
-    """PV event dicts of one job graph; ids/time/order of presentation derived from rnd"""
+def pv_events(job, job_index, job_name, rnd=None, idprefix="", t0=0, local_ids=False):
+    """PV event dicts of one job graph; ids/time/order of presentation derived from rnd; local_ids: event ids unique inside
+    the job only (e0, e1, ... in every job)"""
     n = len(job)
     ids = [f"{idprefix}{job_index}_{i}" for i in range(n)]
     if rnd is not None:
         ids = [f"{idprefix}{rnd.getrandbits(48):012x}" for _ in range(n)]
+    if local_ids:
+        ids = [f"e{i}" for i in range(n)]
     evs = []
     for i, (t, ps) in enumerate(job):
         evs.append(dict(jobId=f"{idprefix}job{job_index}", jobName=job_name, eventId=ids[i], eventType=t,
